@@ -104,13 +104,23 @@ func (m *Map) CompareAndDelete(k, o any) bool   { m.pt(true); return m.real.Comp
 func (m *Map) Range(f func(k, v any) bool)      { m.pt(false); m.real.Range(f) }
 
 type Pool struct {
-	New  func() any
-	real sync.Pool
+	New   func() any
+	real  sync.Pool
+	stack []any // deterministic LIFO used under the explorer: a Put object is the next one handed out
 }
 
 func (p *Pool) Get() any {
 	if s := verifrt.S; s != nil {
 		s.Atomic(unsafe.Pointer(p), true)
+		if n := len(p.stack); n > 0 {
+			x := p.stack[n-1]
+			p.stack = p.stack[:n-1]
+			return x
+		}
+		if p.New != nil {
+			return p.New()
+		}
+		return nil
 	}
 	p.real.New = p.New
 	return p.real.Get()
@@ -118,6 +128,8 @@ func (p *Pool) Get() any {
 func (p *Pool) Put(x any) {
 	if s := verifrt.S; s != nil {
 		s.Atomic(unsafe.Pointer(p), true)
+		p.stack = append(p.stack, x)
+		return
 	}
 	p.real.Put(x)
 }
